@@ -7,17 +7,54 @@ from __future__ import annotations
 
 import math
 
-KINDS = ("int", "float", "str")
+KINDS = ("int", "float", "str")            # polars / alias levels
+PD_KINDS = ("int", "float", "str", "bool")  # pandas predicate levels
+# physical representation of the checked data in pandas: plain numpy dtypes
+# (int64 / float64 / object / bool) or a nullable EXTENSION dtype that really
+# holds pd.NA.  numpy int / bool cannot hold nulls; every extension dtype can.
+EXT_PHYS = {"int": ["Int64", "UInt8", "Int64", "Int32", "int64[pyarrow]"],
+            "float": ["Float64", "Float64", "double[pyarrow]"],
+            "str": ["string"], "bool": ["boolean", "boolean", "bool[pyarrow]"]}
 POOL = {
     "int": [-4, -3, -1, 0, 1, 2, 3, 4, 5, 7, 10],
     "float": [-2.5, -1.0, -0.5, 0.0, 0.5, 1.0, 1.5, 2.0, 3.0, 4.5],
     "str": ["a", "b", "ab", "abc", "ba", "", "A", "AB", "xa", "aa", "é"],
+    "bool": [True, False],
 }
 GROUP_KEYS = ["g1", "g2", "g3"]
 
 
 def is_null(x):
     return x is None or (isinstance(x, float) and math.isnan(x))
+
+
+def phys_of(data):
+    return data.get("phys", "numpy")
+
+
+def holds_nulls(kind, phys):
+    return kind in ("float", "str") or phys != "numpy"
+
+
+def pool_of(kind, phys="numpy"):
+    if phys == "UInt8":
+        return [x for x in POOL["int"] if x >= 0]
+    return POOL[kind]
+
+
+def gen_phys(rng, kind, pred=None, p_ext=0.45):
+    """numpy or one of the nullable extension dtypes of the kind.  UInt8 only
+    when every constant of the predicate is non-negative (comparing unsigned
+    scalars with negative Python ints is numpy's business, not pandera's)."""
+    if rng.random() >= p_ext:
+        return "numpy"
+    phys = rng.choice(EXT_PHYS[kind])
+    if phys == "UInt8" and pred is not None:
+        a = pred["arg"]
+        args = a if isinstance(a, list) else [a]
+        if any(isinstance(x, (int, float)) and x < 0 for x in args):
+            phys = "Int64"
+    return phys
 
 
 # ---------------------------------------------------------------- predicates
@@ -32,6 +69,8 @@ def gen_pred(rng, kind):
         if k == "isupper":
             return {"op": k, "arg": None}
         return {"op": k, "arg": rng.choice(POOL["str"])}
+    if kind == "bool":
+        return {"op": rng.choice(["eq", "ne"]), "arg": rng.random() < 0.5}
     pool = POOL[kind]
     k = rng.choice(["gt", "ge", "lt", "le", "eq", "ne", "mod", "abs_lt",
                     "between", "intmod"] if kind == "float" else
@@ -84,10 +123,34 @@ def py_pred(p):
     raise KeyError(op)
 
 
-def raises_on_null(p, kind):
+def raises_on_null(p, kind, phys="numpy"):
+    """Does the scalar reading raise when it is shown the null of this
+    representation?  numpy float -> NaN, numpy object -> None.  Extension
+    dtypes: what a null element looks like to a mapped function is pandas'
+    choice (Int64 -> NaN of a float copy, Float64 / boolean / string -> pd.NA,
+    on which ``bool(x > a)`` raises) - treated as 'may raise'."""
+    if phys != "numpy":
+        return True
     if kind == "str":
         return p["op"] in ("startswith", "contains", "len_le", "isupper")
     return p["op"] == "intmod"
+
+
+def agg_pandas(p, kind):
+    """An AGGREGATE pandas reading of the predicate: a function Series -> one
+    bool (``s.min() > k`` style).  On non-empty null-free data it agrees with
+    'all elements satisfy the predicate'; on empty data / nulls it means
+    whatever pandas computes - the oracle applies the same function to the
+    documented input instead of assuming that.  None when there is none."""
+    op, a = p["op"], p["arg"]
+    if kind == "str" or kind == "bool":
+        return None
+    return {
+        "gt": lambda s: s.min() > a, "ge": lambda s: s.min() >= a,
+        "lt": lambda s: s.max() < a, "le": lambda s: s.max() <= a,
+        "between": lambda s: (s.min() >= a[0]) and (s.max() <= a[1]),
+        "abs_lt": lambda s: s.abs().max() < a,
+    }.get(op)
 
 
 def native_pandas(p):
@@ -119,10 +182,11 @@ def native_polars(p, kind):
 
 
 # ---------------------------------------------------------------- data
-def gen_values(rng, kind, n, p_null, pred=None, p_fail=0.3):
-    """n values; nulls only for float / str.  When ``pred`` is given most
+def gen_values(rng, kind, n, p_null, pred=None, p_fail=0.3, phys="numpy"):
+    """n values; nulls only where the representation can hold them (numpy
+    float / object, every extension dtype).  When ``pred`` is given most
     values satisfy it so that passing checks are not rare."""
-    pool = POOL[kind]
+    pool = pool_of(kind, phys)
     good = bad = pool
     if pred is not None:
         f = py_pred(pred)
@@ -131,7 +195,7 @@ def gen_values(rng, kind, n, p_null, pred=None, p_fail=0.3):
     fail_case = rng.random() < 0.5
     out = []
     for _ in range(n):
-        if kind != "int" and rng.random() < p_null:
+        if holds_nulls(kind, phys) and rng.random() < p_null:
             out.append(None)
         elif fail_case and rng.random() < p_fail:
             out.append(rng.choice(bad))
@@ -153,20 +217,45 @@ def gen_index(rng, n):
     return {"kind": "dup", "labels": labels}
 
 
-def gen_data(rng, kind=None, pred=None, min_rows=0):
+def gen_data(rng, kind=None, pred=None, min_rows=0, phys="numpy",
+             groups=False):
+    """``phys``: physical dtype of the columns v and w.  ``groups``: also draw
+    the grouping-column shapes used by the groupby level: a CATEGORICAL g with
+    categories that have no rows, a bool h, a group all of whose elements are
+    null (emptied by ignore_na)."""
     kind = kind or rng.choice(KINDS)
     n = rng.choice([0, 1, 2, 3, 4, 5, 6, 8])
     n = max(n, min_rows)
-    p_null = rng.choice([0.0, 0.0, 0.2, 0.4])
+    p_null = rng.choice([0.0, 0.0, 0.2, 0.4] if phys == "numpy"
+                        else [0.0, 0.2, 0.3, 0.5])
+    nkeys = rng.choice([1, 2, 3])
     data = {
         "kind": kind,
-        "v": gen_values(rng, kind, n, p_null, pred),
-        "w": gen_values(rng, kind, n, p_null / 2),
-        "g": [rng.choice(GROUP_KEYS[:rng.choice([1, 2, 3])]) for _ in range(n)]
+        "phys": phys,
+        "v": gen_values(rng, kind, n, p_null, pred, phys=phys),
+        "w": gen_values(rng, kind, n, p_null / 2, phys=phys),
+        "g": [rng.choice(GROUP_KEYS[:nkeys]) for _ in range(n)]
         if n else [],
         "h": [rng.choice([0, 1]) for _ in range(n)],
         "index": gen_index(rng, n),
     }
+    if groups:
+        r = rng.random()
+        if r < 0.45:
+            # categories: a superset of the keys drawn from; with 1-2 drawn
+            # keys (or no rows) some category has no row at all
+            cats = list(GROUP_KEYS if rng.random() < 0.7 else
+                        GROUP_KEYS + ["g0"])
+            rng.shuffle(cats)
+            data["gcat"] = cats
+        if rng.random() < 0.3:
+            data["hbool"] = True
+            data["h"] = [bool(x) for x in data["h"]]
+        if n and holds_nulls(kind, phys) and rng.random() < 0.2:
+            # one group whose elements are all null
+            key = rng.choice(data["g"])
+            data["v"] = [None if g == key else x
+                         for g, x in zip(data["g"], data["v"])]
     return data
 
 
@@ -182,10 +271,15 @@ def drop_null_rows(data, cols=("v",)):
 
 
 # ---------------------------------------------------------------- real objects
-def pd_series(kind, values, index=None, name=None):
+def pd_series(kind, values, index=None, name=None, phys="numpy"):
     import numpy as np
     import pandas as pd
-    if kind == "int":
+    if phys != "numpy":
+        return pd.Series(pd.array(list(values), dtype=phys), index=index,
+                         name=name)
+    if kind == "bool":
+        arr = np.array(values, dtype=bool)
+    elif kind == "int":
         arr = np.array(values, dtype="int64")
     elif kind == "float":
         arr = np.array([np.nan if v is None else v for v in values],
@@ -211,12 +305,27 @@ def pd_frame(data, cols=("v", "w", "g", "h")):
     idx = pd_index(data["index"])
     parts = {}
     for c in cols:
-        kind = data["kind"] if c in ("v", "w") else ("str" if c == "g" else "int")
-        parts[c] = pd_series(kind, data[c], idx)
+        if c in ("v", "w"):
+            parts[c] = pd_series(data["kind"], data[c], idx,
+                                 phys=phys_of(data))
+        elif c == "g" and data.get("gcat"):
+            parts[c] = pd.Series(
+                pd.Categorical(data["g"], categories=data["gcat"]), index=idx)
+        elif c == "g":
+            parts[c] = pd_series("str", data[c], idx)
+        else:
+            parts[c] = pd_series("bool" if data.get("hbool") else "int",
+                                 data[c], idx)
     return pd.DataFrame(parts, index=idx, columns=list(cols))
 
 
-PD_DTYPE = {"int": "int64", "float": "float64", "str": str}
+PD_DTYPE = {"int": "int64", "float": "float64", "str": str, "bool": "bool"}
+
+
+def pd_dtype(data):
+    """dtype argument of the schema component for columns v / w."""
+    phys = phys_of(data)
+    return PD_DTYPE[data["kind"]] if phys == "numpy" else phys
 
 
 def pl_frame(data, cols=("v", "w")):
